@@ -214,7 +214,8 @@ DiffIsRef   == Done /\ op = "diff"   => Eq(res, Diff(a0[1], a0[2], lv))
 UpdRecIsRef == /\ Done /\ op \in {"updrec", "updstr"} /\ exc = "" => Eq(args[1], UpdRec(a0[1], a0[2]))
                /\ Done /\ exc # "" => args = a0 /\ op = "updstr" /\ exc = "LenaValueError"
 \* "returns a dictionary or its subtype (copied from dicts[0])"
-InterKeepsClass == Done /\ op = "inter" => rcls = IF Len(a0) = 0 THEN "dict" ELSE cls
+\* (an empty result may also be a new plain dictionary)
+InterKeepsClass == Done /\ op = "inter" /\ ~IsEmpty(res) => rcls = cls
 NestedIsRef == Done /\ op = "nested" => /\ Eq(args[1], NestedD(key, a0[1], a0[2]))
                                         /\ Eq(args[2], NestedOther(key, a0[1], a0[2]))
 
